@@ -77,6 +77,10 @@ def reserved_shapes(t, str_form, top=True):
         out += reserved_shapes(v, str_form, False)
     elif 'o' in t:
       for k, v in t['a']:
+        if k == TYPE_KEY:
+          out.append('type-key')
+        elif str_form and k.startswith('n_:'):
+          out.append('int-key-prefix')
         if not (isinstance(v, dict) and 'm' in v):
           out += reserved_shapes(v, str_form, False)
   return out
